@@ -533,8 +533,10 @@ fn family(fam: &str, n: usize) -> String {
 fn main() {
     vh::serve(|t| {
         let owned: Vec<String> = t.iter().map(|s| s.to_string()).collect();
-        // a fresh thread per line: the thread-local priority generator starts from its seed, and the
-        // stack is large enough for the degenerate (all-equal / monotone priority) shapes
+        // every line starts from the seed of the process-wide priority generator (hook, cargo feature
+        // `verif`) and runs on a fresh thread whose stack is large enough for the degenerate
+        // (all-equal / monotone priority) shapes
+        rlib_treap::verif_reset_priorities();
         let h = std::thread::Builder::new()
             .stack_size(512 << 20)
             .spawn(move || {
